@@ -173,6 +173,7 @@ type Stats struct {
 	Outcomes              map[string]int `json:"outcomes"` // action kind/result histogram
 	Foreign               map[string]int `json:"foreign_discrepancies,omitempty"`
 	DeadStates            int            `json:"dead_states,omitempty"`
+	PartialLevel          int            `json:"transitions_checked_in_the_unfinished_level,omitempty"`
 	LazyNodes             int            `json:"nodes_rederived_from_an_ancestor_snapshot,omitempty"`
 	ConformanceMismatches int            `json:"conformance_mismatches,omitempty"`
 	MaxFrontier           int            `json:"max_frontier"`
@@ -218,6 +219,7 @@ type job struct {
 }
 
 type result struct {
+	done  bool
 	job   job
 	key   [32]byte
 	snap  *mc.Snap
@@ -418,17 +420,25 @@ func (s *Scenario) Explore(opt Options) (Stats, []Violation) {
 							atomic.AddInt64(&levelBytes, int64(r.snap.Size())+perNodeOverhead)
 						}
 					}
+					r.done = true
 					results[ji] = r
 				}
 			}(execs[wi])
 		}
 		wg.Wait()
 		if timedOut {
+			// the transitions of this level that did run were checked like all others; the level is not
+			// complete, nothing below it is explored
 			st.StoppedBy = fmt.Sprintf("time budget %s during depth %d", opt.Budget, depth)
-			break
 		}
 		var nextFrontier []*node
 		for ji, r := range results {
+			if !r.done {
+				continue
+			}
+			if timedOut {
+				st.PartialLevel++
+			}
 			p := frontier[r.job.parent]
 			if !r.obs.Halted && !seen[r.key] && winner[r.key] != int64(ji) {
 				r.snap, r.m, r.aux = nil, nil, nil
@@ -488,6 +498,9 @@ func (s *Scenario) Explore(opt Options) (Stats, []Violation) {
 			if len(st.Samples) < 4 || (depth == opt.Depth && len(st.Samples) < 6) {
 				st.Samples = append(st.Samples, names(path))
 			}
+		}
+		if timedOut {
+			break
 		}
 		// conformance replay of new nodes on fresh applications (no restore)
 		var toReplay []*node
